@@ -394,5 +394,47 @@ PLANS = {"C20": plan_c20, "C17": plan_c17, "C08": plan_c08, "C07": plan_c07, "C1
 
 
 def selftest(verif):
-    p = subprocess.run([os.path.join(verif, "target", "release", "tzsim"), "selftest"], env=o.env())
-    return p.returncode
+    """Harness self-test: internal consistency, then determinism across processes and worker counts."""
+    import shutil
+    tz = os.path.join(verif, "target", "release", "tzsim")
+    p = subprocess.run([tz, "selftest"], env=o.env())
+    if p.returncode != 0:
+        return 2
+    out = os.path.join(verif, "target", "runs", "selftest")
+    shutil.rmtree(out, ignore_errors=True)
+    os.makedirs(out, exist_ok=True)
+    bad = 0
+    n_per = {"C20": 6000, "C15": 3000, "C07": 12000, "C08": 12000, "C17": 12000}
+    for prop, n in n_per.items():
+        procs = []
+        # arrangement A: one process; B: four processes over contiguous quarters; C: twelve interleaved chunks, started in reverse order
+        arrangements = {"A": [(0, n)], "B": [(k * (n // 4), n // 4) for k in range(4)], "C": [(k * (n // 12), n // 12) for k in reversed(range(12))]}
+        for name, parts in arrangements.items():
+            for (start, count) in parts:
+                d = os.path.join(out, f"{prop}-{name}-{start}")
+                procs.append(subprocess.Popen([tz, "run", prop, "--seed", "12345", "--start", str(start), "--count", str(count), "--out", d, "--worker", "0", "--replays", os.path.join(out, "replays"), "--dump", os.path.join(out, f"dump-{prop}-{name}-{start}.txt"), "--recheck-every", "7"], env=o.env(), stdout=subprocess.DEVNULL, stderr=subprocess.DEVNULL))
+        for pr in procs:
+            pr.wait()
+        maps = {}
+        for name in arrangements:
+            m = {}
+            for path in glob.glob(os.path.join(out, f"dump-{prop}-{name}-*.txt")):
+                for line in open(path):
+                    i, rest = line.split(" ", 1)
+                    m[int(i)] = rest.strip()
+            maps[name] = m
+        for name in ("B", "C"):
+            common = set(maps["A"]) & set(maps[name])
+            diff = [i for i in common if maps["A"][i] != maps[name][i]]
+            print(f"selftest determinism {prop}: arrangement A vs {name}: {len(common)} scenarios compared, {len(diff)} differ")
+            if diff or len(common) < (n // 12) * 12 * 0.99:
+                bad += 1
+                for i in diff[:3]:
+                    print("   index", i, maps["A"][i], "vs", maps[name][i])
+        for path in glob.glob(os.path.join(out, f"{prop}-*", "stats-0.json")):
+            d = json.load(open(path))
+            if d.get("recheck_mismatch", 0) or d.get("harness_errors"):
+                bad += 1
+                print("selftest: in-process re-execution mismatch in", path, d.get("harness_errors"))
+    print("selftest determinism:", "ok" if bad == 0 else "FAILED")
+    return 0 if bad == 0 else 2
